@@ -25,6 +25,9 @@ def make(cfg):
     mode = cfg.get("mode", "eigen")
     twin = cfg.get("twin")
     opts = dict(query_timeout_ms=30000, no_pins=True)
+    if cfg.get("round_single"):
+        # float64 input: a scalar that passes through a default-dtype (float32) tensor on its way into the float64 eigenvalues is rounded
+        opts["round_double_inputs"] = True
     log = mf.install_stubs(opts, fail_first_eigh=cfg.get("fail_first", False))
 
     def fn():
@@ -154,6 +157,14 @@ def jobs_for(tier):
             continue
         jobs.append(dict(id=f"e{k}", module="checks.c11", factory="make", cfg=dict(n=n, root=root, enhance=enh, mode="eigen" if (k % 2 or n == 1) else "dispatch")))
         k += 1
+    if tier == "thorough":
+        for root, enh in itertools.product(("2", "4"), (False, True)):
+            jobs.append(dict(id=f"e{k}", module="checks.c11", factory="make", cfg=dict(n=4, root=root, enhance=enh, mode="eigen" if k % 2 else "dispatch")))
+            k += 1
+    # float64 inputs with precision tracking of scalars that go through float32 tensors
+    for root, enh in (("2", False), ("4", True)):
+        jobs.append(dict(id=f"e{k}", module="checks.c11", factory="make", cfg=dict(n=2, root=root, enhance=enh, mode="eigen" if enh else "dispatch", f64=True, round_single=True)))
+        k += 1
     for f64, retry in ((False, True), (True, True), (False, False)):
         jobs.append(dict(id=f"e{k}", module="checks.c11", factory="make", cfg=dict(n=2, root="2", enhance=False, mode="dispatch", fail_first=True, f64=f64, retry=retry)))
         k += 1
@@ -169,7 +180,7 @@ def run(tier, seed, argv):
 
     rep = Report("C11", tier, seed)
     jobs = jobs_for(tier)
-    rep.bounds = dict(n="<=3", roots="2, 4, 3/2 (thorough: 1)", eigenvalues="arbitrary reals, ascending (zero / negative included)", epsilon="symbolic > 0", shapes_for_rejection="order<=3, dims<=3")
+    rep.bounds = dict(n="<=3 (thorough: 4 for roots 2 and 4)", roots="2, 4, 3/2 (thorough: 1)", eigenvalues="arbitrary reals, ascending (zero / negative included)", epsilon="symbolic > 0", shapes_for_rejection="order<=3, dims<=3")
     rep.assumptions = ["torch.linalg.eigh is an environment stub: fresh ascending eigenvalues and a fresh Q (LAPACK's contract); orthonormality of Q is not needed for the decided clauses",
                        "finiteness and the eigenvalue bound follow from 'power arguments >= epsilon' by monotonicity; commutation and orthogonal equivariance follow from the proved Q D Q^T form (recorded as consequences, not discharged)",
                        "real arithmetic: float overflow/underflow of the power is outside the claim"]
@@ -217,28 +228,87 @@ def replay(record):
         if not torch.allclose(Xd, Xg, rtol=1e-8, atol=1e-10):
             probs.append(f"diagonal path {Xd.tolist()} != general path {Xg.tolist()}")
         return bool(probs), f"diag={lam} eps={eps}: {probs or 'paths agree'}"
+    if cfg.get("round_single"):
+        # the symbolic run says a rounded scalar reaches the eigenvalues: look for a float64 input (spectrum with a slightly negative eigenvalue,
+        # epsilon well above the float64 resolution of the scale and below the float32 one) on which an observable clause fails
+        g2 = torch.Generator().manual_seed(5)
+        for trial in range(60):
+            scale = [1.0, 1e-3, 1e3][trial % 3]
+            lam_t = torch.sort(torch.rand(n, dtype=torch.float64, generator=g2) * scale).values
+            lam_t[0] = -scale * (1e-4 + 9e-4 * torch.rand(1, dtype=torch.float64, generator=g2).item())
+            e_ = scale * [1e-12, 1e-11, 1e-13][trial % 3]
+            Qt, _ = torch.linalg.qr(torch.randn(n, n, dtype=torch.float64, generator=g2))
+            mat_t = Qt @ torch.diag(lam_t) @ Qt.T
+            mat_t = (mat_t + mat_t.T) / 2
+            X = M.matrix_inverse_root(mat_t, root, root_inv_config=EigenConfig(enhance_stability=enh), epsilon=e_)
+            bound = e_ ** (-1.0 / float(root))
+            if not torch.isfinite(X).all():
+                probs.append(f"result is not finite for spectrum {lam_t.tolist()} eps={e_}")
+            else:
+                ev = torch.linalg.eigvalsh((X + X.T) / 2)
+                if ev.min() <= 0:
+                    probs.append(f"result is not positive definite for spectrum {lam_t.tolist()} eps={e_}")
+                elif ev.max() > bound * (1 + 1e-3):
+                    probs.append(f"largest eigenvalue {ev.max().item():.6g} exceeds epsilon^(-1/r) = {bound:.6g} for spectrum {lam_t.tolist()} eps={e_}")
+            if probs:
+                break
+        return bool(probs), f"float64 search (root={root}, enhance_stability={enh}): {probs or '60 inputs with a slightly negative eigenvalue: clauses hold'}"
     mat = Qr @ torch.diag(torch.tensor(lam, dtype=torch.float64)) @ Qr.T
     if enh:
         # the decomposed matrix is A + eps I: the model's eigenvalues are those of A + eps I
         mat = mat - eps * torch.eye(n, dtype=torch.float64)
     mat = (mat + mat.T) / 2
-    X = M.matrix_inverse_root(mat, root, root_inv_config=EigenConfig(enhance_stability=enh), epsilon=eps)
-    bound = eps ** (-1.0 / float(root))
-    if not torch.isfinite(X).all():
-        probs.append("result is not finite")
-    else:
-        ev = torch.linalg.eigvalsh((X + X.T) / 2)
-        if not torch.allclose(X, X.T, rtol=1e-8, atol=1e-10):
-            probs.append("result is not symmetric")
-        if ev.min() <= 0:
-            probs.append(f"result is not positive definite (min eigenvalue {ev.min().item():.3e})")
-        if ev.max() > bound * (1 + 1e-6):
-            probs.append(f"largest eigenvalue {ev.max().item():.6g} exceeds epsilon^(-1/r) = {bound:.6g}")
-        lam_eff = torch.linalg.eigvalsh(mat)
-        ref = (lam_eff - min(lam_eff.min().item(), 0.0) + eps) ** (-1.0 / float(root))
-        if not torch.allclose(torch.sort(ev).values, torch.sort(ref).values, rtol=1e-6, atol=1e-9):
-            probs.append(f"spectrum {ev.tolist()} differs from (lambda - min(lambda_min,0) + eps)^(-1/r) = {ref.tolist()}")
-    return bool(probs), f"spectrum={lam} eps={eps} root={root} enhance_stability={enh}: {probs or 'clauses hold'}"
+    # the witness spectrum first, then the degenerate inputs the property names (zero matrix, rank-deficient, tiny scale, slightly negative eigenvalue)
+    e1 = torch.zeros(n, n, dtype=torch.float64)
+    e1[0, 0] = 1.0
+    neg = Qr @ torch.diag(torch.tensor([-1e-4] + [1.0] * (n - 1), dtype=torch.float64)) @ Qr.T
+    cands = [(mat, eps), (torch.zeros(n, n, dtype=torch.float64), eps), (e1, eps), (e1 * 1e-6, 1e-8), ((neg + neg.T) / 2, 1e-3), (mat * 1e-8, max(eps * 1e-8, 1e-12))]
+    fail_first = bool(cfg.get("fail_first"))
+    real_eigh = torch.linalg.eigh
+    for mat_c, eps_c in cands:
+        for dt in ((torch.float32,) if fail_first else (torch.float64, torch.float32)):
+            calls = [0]
+
+            def flaky(Ax, *a, **k):
+                calls[0] += 1
+                if Ax.dtype != torch.float64:
+                    raise RuntimeError("injected: eigh failed to converge in single precision")
+                return real_eigh(Ax, *a, **k)
+
+            if fail_first:
+                torch.linalg.eigh = flaky  # the float64 retry path (as the repository's own tests provoke it)
+            try:
+                X = M.matrix_inverse_root(mat_c.to(dt), root, root_inv_config=EigenConfig(enhance_stability=enh, retry_double_precision=cfg.get("retry", True)), epsilon=eps_c)
+            except Exception as e:
+                if not (fail_first and not cfg.get("retry", True)):
+                    probs.append(f"raised {type(e).__name__}: {e} for input {mat_c.tolist()} eps={eps_c} ({dt})"[:300])
+                continue
+            finally:
+                torch.linalg.eigh = real_eigh
+            X = X.to(torch.float64)
+            bound = eps_c ** (-1.0 / float(root))
+            rt = 1e-3 if dt is torch.float32 else 1e-6
+            if not torch.isfinite(X).all():
+                probs.append(f"result is not finite for input {mat_c.tolist()} eps={eps_c} ({dt})")
+            else:
+                ev = torch.linalg.eigvalsh((X + X.T) / 2)
+                if not torch.allclose(X, X.T, rtol=rt, atol=rt * bound):
+                    probs.append(f"result is not symmetric for input {mat_c.tolist()}")
+                if ev.min() <= 0:
+                    probs.append(f"result is not positive definite (min eigenvalue {ev.min().item():.3e}) for input {mat_c.tolist()} eps={eps_c} ({dt})")
+                if ev.max() > bound * (1 + 10 * rt):
+                    probs.append(f"largest eigenvalue {ev.max().item():.6g} exceeds epsilon^(-1/r) = {bound:.6g} for input {mat_c.tolist()} eps={eps_c} ({dt})")
+                if dt is torch.float64:
+                    lam_eff = torch.linalg.eigvalsh(mat_c + (eps_c if enh else 0.0) * torch.eye(n, dtype=torch.float64))
+                    sh = min((lam_eff.min().item() - eps_c) if enh else lam_eff.min().item(), 0.0)
+                    ref = (lam_eff - sh + (0.0 if enh else eps_c)) ** (-1.0 / float(root))
+                    if not torch.allclose(torch.sort(ev).values, torch.sort(ref).values, rtol=1e-5, atol=1e-9 * bound):
+                        probs.append(f"spectrum {ev.tolist()} differs from (lambda - min(lambda_min,0) + eps)^(-1/r) = {ref.tolist()} for input {mat_c.tolist()} eps={eps_c}")
+            if probs:
+                break
+        if probs:
+            break
+    return bool(probs), f"root={root} enhance_stability={enh}{' (float32 eigh failure injected)' if fail_first else ''}: {probs[:2] or 'clauses hold on the witness and on the degenerate inputs'}"
 
 
 def shape_rejection_real():
